@@ -389,3 +389,152 @@ func isGrowth(v ssa.Value) bool {
 	}
 	return false
 }
+
+// R-PAR-12 --------------------------------------------------------------------
+
+func init() {
+	Register(&Rule{ID: "R-PAR-12", Props: []string{"C12", "C03"}, Floor: 1,
+		Doc: "per-worker results are folded before they are acted on: where worker goroutines fill the slots xs[thIdx] of a local slice of slices and the parent combines them afterwards, the loop over the workers' slots only updates loop-carried accumulators (and may break) — when that loop is nested inside a loop over the items (a per-item decision across the workers) it does not append to or store into a result collection, because an effect taken inside it happens once per worker slot and makes the outcome depend on how the rows were split among the workers (FULL OUTER JOIN: a right row is unmatched only if NO worker matched it)",
+		Controls: []string{"CtlActsPerWorkerSlot"},
+		Run:      rulePar12})
+}
+
+func rulePar12(c *Ctx) {
+	e := parAnalysis(c.P)
+	n := 0
+	seenParent := map[*ssa.Function]bool{}
+	for _, fam := range e.families {
+		parent := fam.parent
+		if seenParent[parent] {
+			continue
+		}
+		seenParent[parent] = true
+		// slot collections: local make([]S, …) with S a slice type, whose elements are stored inside a region closure
+		slots := map[ssa.Value]bool{}
+		for _, r := range fam.regions {
+			for _, f := range funcAndClosures(r.fn) {
+				for _, b := range f.Blocks {
+					for _, in := range b.Instrs {
+						st, ok := in.(*ssa.Store)
+						if !ok {
+							continue
+						}
+						ia, ok := st.Addr.(*ssa.IndexAddr)
+						if !ok {
+							continue
+						}
+						sl, ok := ia.X.Type().Underlying().(*types.Slice)
+						if !ok {
+							continue
+						}
+						if _, inner := sl.Elem().Underlying().(*types.Slice); !inner {
+							continue
+						}
+						for _, o := range core.Origins(ia.X, true) {
+							if ms, ok := o.(*ssa.MakeSlice); ok && ms.Parent() == parent {
+								slots[ms] = true
+							}
+						}
+					}
+				}
+			}
+		}
+		if len(slots) == 0 {
+			continue
+		}
+		loops := core.NaturalLoops(parent)
+		k := 0
+		for _, l := range loops {
+			// the loop ranges over a slot collection: its header/body reads xs[w] with w the loop's induction variable
+			var coll ssa.Value
+			for b := range l.Blocks {
+				for _, in := range b.Instrs {
+					var x ssa.Value
+					switch y := in.(type) {
+					case *ssa.IndexAddr:
+						x = y.X
+					case *ssa.Index:
+						x = y.X
+					default:
+						continue
+					}
+					for _, o := range core.Origins(x, true) {
+						if slots[o] {
+							// the index must be loop-carried in this very loop (phi in the header)
+							var idx ssa.Value
+							switch y := in.(type) {
+							case *ssa.IndexAddr:
+								idx = y.Index
+							case *ssa.Index:
+								idx = y.Index
+							}
+							if bo, ok := idx.(*ssa.BinOp); ok { // range loops index with φ+1
+								idx = bo.X
+							}
+							if ph, ok := idx.(*ssa.Phi); ok && ph.Block() == l.Header {
+								coll = o
+							}
+						}
+					}
+				}
+			}
+			if coll == nil {
+				continue
+			}
+			// per-item decision: the loop over the slots is nested inside a loop over the items (a loop over the
+			// slots that is not nested concatenates or merges whole slots, which is the fold itself)
+			nested := false
+			for _, o := range loops {
+				if o != l && o.Blocks[l.Header] && len(o.Blocks) > len(l.Blocks) {
+					nested = true
+				}
+			}
+			if !nested {
+				continue
+			}
+			k++
+			n++
+			c.Touch(parent)
+			key := c.KeyAt(parent, fmt.Sprintf("loop #%d over the workers' result slots only folds", k))
+			bad := ""
+			// the loop body, plus the blocks of its `break` paths (left through a non-header exit edge, up to the
+			// point where they join other paths)
+			scan := map[*ssa.BasicBlock]bool{}
+			for b := range l.Blocks {
+				scan[b] = true
+			}
+			for _, e := range l.ExitEdges(false) {
+				for x := e[1]; x != nil && !scan[x] && len(x.Preds) == 1; {
+					scan[x] = true
+					if len(x.Succs) != 1 {
+						break
+					}
+					x = x.Succs[0]
+				}
+			}
+			for b := range scan {
+				for _, in := range b.Instrs {
+					switch y := in.(type) {
+					case *ssa.Call:
+						if bi, ok := y.Call.Value.(*ssa.Builtin); ok && bi.Name() == "append" {
+							bad = fmt.Sprintf("append at %s", c.Pos(in))
+						}
+					case *ssa.Store:
+						if _, local := y.Addr.(*ssa.Alloc); !local {
+							if ia, ok := y.Addr.(*ssa.IndexAddr); ok {
+								_ = ia
+							}
+							bad = fmt.Sprintf("store at %s", c.Pos(in))
+						}
+					case *ssa.MapUpdate:
+						bad = fmt.Sprintf("map update at %s", c.Pos(in))
+					}
+				}
+			}
+			c.Check(bad == "", key, c.Pos(l.Header.Instrs[0]), "only loop-carried accumulators are updated inside the loop", "an effect is taken inside the loop over the per-worker slots ("+bad+"): it happens once per worker whose slot satisfies the test, so the result depends on the number of goroutines the rows were split over")
+		}
+	}
+	if n == 0 {
+		c.Unknown("worker slots", "-", "cannot-analyse: no loop over per-worker result slots found (OuterJoin's match lists are expected)")
+	}
+}
